@@ -69,6 +69,33 @@ var PathPool = []string{
 	// "3rd" -> "rd", ".2fa" -> "fa", "-9lives" -> "lives", "é9x" -> "9x" -> "x" which competes
 	// with a.b/x and a/9x, "9_" and "__" -> "" -> "pkg")
 	"a.b/_3rd", "x/.2fa", "a/-9lives", "a/é9x", "a.b/9_", "x.y/__",
+	// keywords as last elements: the two keywords longer than 8 letters and a few others (next
+	// to a.b/func, a.b/type and q/go above): the guessed alias is a reserved word and must be
+	// numbered (or prefixed) before it can be written
+	"a.b/fallthrough", "x/interface", "x.y/continue", "q/select", "q/default", "a/package",
+}
+
+// KeywordPaths are the paths of PathPool whose guessed alias is a Go keyword.
+var KeywordPaths = []string{"a.b/func", "a.b/type", "q/go", "a.b/fallthrough", "x/interface", "x.y/continue", "q/select", "q/default", "a/package"}
+
+// IsKeywordPath reports whether path is one of KeywordPaths.
+func IsKeywordPath(path string) bool {
+	for _, p := range KeywordPaths {
+		if p == path {
+			return true
+		}
+	}
+	return false
+}
+
+// NonCanonicalNumbers are number tokens in spellings that gofmt REWRITES (upper-case prefixes
+// and exponents, legacy octal imaginary) next to borderline spellings that it must keep
+// (digit separators, 0x_ prefix, upper-case hex digits).  They are written through Op / Id
+// (raw token text), so the formatted output differs from the raw rendering exactly by the
+// number normalisation of go/format.
+var NonCanonicalNumbers = []string{
+	"0X0F", "0O755", "0B1010_0101", "1E6", "0X1P-2", "0123i", "0x_1F", "1_000",
+	"0XABCDEF", "0Xabc", "1E+6", "2.5E-3", "0X1.8P+1", "0B1", "0O17", "0E0", "1_0E1_0", "0X_FFp0", "0b_1", "017", "00", "0_7", "1E6i", "0.E1", ".5E3",
 }
 
 // SymbolThenDigit reports whether the last element of path begins with characters that are
@@ -104,6 +131,12 @@ type Gen struct {
 	NoDict   bool
 	NoBad    bool
 	Dicts    int
+	// RawNumberRate > 0: in SimpleDecl 1 in RawNumberRate call arguments is a number token of
+	// NonCanonicalNumbers written through Op or Id, and 1 in (2*RawNumberRate) declarations has
+	// such a token as its whole initialiser (`var Ax = 0X0F`).  0 (the default) = never: the
+	// other users of SimpleDecl are unchanged.
+	RawNumberRate int
+	RawNumbers    int // how many such tokens have been drawn so far
 }
 
 func pick(r *rand.Rand, l []string) string { return l[r.Intn(len(l))] }
@@ -294,7 +327,12 @@ func (g *Gen) Stmt(depth int) *term.Stmt {
 			}
 		case 3:
 			if g.NilRate > 0 {
-				st.Items = append(st.Items, term.Nil{})
+				// any nullish item in a statement chain (also directly before a Block: the
+				// look-behind of the case-block rule must cope with typed nil pointers)
+				st.Items = append(st.Items, g.nullish())
+				if g.R.Intn(3) == 0 && depth < g.MaxDepth {
+					st.Items = append(st.Items, term.G("Block", g.GroupItem(depth+1)))
+				}
 			}
 		case 4:
 			if !g.NoBad && r.Intn(10) == 0 {
@@ -307,13 +345,38 @@ func (g *Gen) Stmt(depth int) *term.Stmt {
 	return st
 }
 
+// RawNumber draws a number token in a non-canonical (or borderline) spelling, written
+// through Op or Id.
+func (g *Gen) RawNumber() term.Node {
+	g.RawNumbers++
+	n := pick(g.R, NonCanonicalNumbers)
+	if g.R.Intn(2) == 0 {
+		return term.Id(n)
+	}
+	return term.Op(n)
+}
+
 // Valid-ish statement shapes used where the output should usually format.
 func (g *Gen) SimpleDecl(i int) *term.Stmt {
 	r := g.R
 	name := string(rune('A'+i%26)) + g.Ident()
+	if g.RawNumberRate > 0 && r.Intn(2*g.RawNumberRate) == 0 {
+		// var Ax = 0B1010_0101  (optionally typed / in an expression)
+		init := []term.Node{term.Named("Var"), term.Id(name)}
+		if r.Intn(4) == 0 {
+			init = append(init, term.Id(pick(r, []string{"float64", "complex128"})))
+		}
+		init = append(init, term.Op("="), g.RawNumber())
+		if r.Intn(3) == 0 {
+			init = append(init, term.Op("+"), g.RawNumber())
+		}
+		return term.S(init...)
+	}
 	var args []term.Node
 	for j := 0; j < r.Intn(4); j++ {
-		if len(g.Paths) > 0 && r.Intn(2) == 0 {
+		if g.RawNumberRate > 0 && r.Intn(g.RawNumberRate) == 0 {
+			args = append(args, term.S(g.RawNumber()))
+		} else if len(g.Paths) > 0 && r.Intn(2) == 0 {
 			args = append(args, term.S(term.Qual(pick(r, g.Paths), "V")))
 		} else {
 			args = append(args, term.S(term.Lit(r.Intn(100))))
